@@ -221,6 +221,10 @@ def run(chk):
     p = core.load_program("all")
     chk.configs = ["all-features"]
     chk.explanation = __doc__
+    # shared clause (C07 R8): "the store grows by exactly the new credential" needs the shipped stores' save to write the
+    # record it is given under that record's id and to touch nothing else
+    from .framework import borrow
+    borrow(chk, "C07", ["R8|"], "C02: a successful registration adds exactly the new credential to the store")
     N_reg = normal.Normalizer(p, summary.Summaries(p))
     reg = ceremony(p, "register", adt=CLIENT)
     mc = ceremony(p, "make_credential")
